@@ -399,6 +399,7 @@ func vspecCovered(x int64, start int64, c int64, size int64) bool {
 //
 // Trusted helpers: formatting and logging have no effect on the state the contracts talk about.
 //@ func (*service).cid
+//@   flag bodyhash cfdc1dec2462
 //@   trusted
 //@   pure
 //@ extern github.com/mdzio/go-logging.Logger.Errorf
@@ -579,6 +580,7 @@ func vspecCovered(x int64, start int64, c int64, size int64) bool {
 // is described in /verif/DESIGN.md. Callers (processIncoming) only rely on the frame below. The defect the partial
 // check found (a rejected filter made the request vanish without SUBACK) was fixed in the code.
 //@ func (*service).processSubscribe
+//@   flag bodyhash 23643000387f
 //@   trusted
 //@   results err
 //@   requires vdefProc(p) && msg != nil
@@ -630,9 +632,11 @@ func vspecCovered(x int64, start int64, c int64, size int64) bool {
 //@ extern (*sync.WaitGroup).Done
 //@   pure
 //@ func isEOF
+//@   flag bodyhash 386441b35cd9
 //@   trusted
 //@   pure
 //@ closure (*service).receiver$1
+//@   flag bodyhash 0c66ce56b1cd
 //@   trusted
 // receiver: the socket is read through a timeoutReader whose deadline is the negotiated keep-alive plus a fifth
 // (K <= d <= 1.5 K), so a client silent for that long fails the read and the connection is torn down.
@@ -647,6 +651,7 @@ func vspecCovered(x int64, start int64, c int64, size int64) bool {
 
 // ---------------------------------------------------------------- teardown (C09: the will; C10: clean sessions)
 //@ closure (*service).stop$1
+//@   flag bodyhash 5b7fd89e4560
 //@   trusted
 //@ extern sync/atomic.CompareAndSwapInt64
 //@   pure
@@ -720,17 +725,20 @@ func vspecCovered(x int64, start int64, c int64, size int64) bool {
 //@   trusted
 //@   pure
 //@ func getConnectMessage
+//@   flag bodyhash 1713382e346d
 //@   trusted
 //@   results msg, err
 //@   ensures err == nil ==> msg != nil && fresh(msg) && message.vdefConnSizes(msg) && len(msg.mtypeflags) == 1 && !msg.dirty && len(msg.dbuf) <= 268435460
 //@   ensures[C11:codes] typeis(err, message.ConnackCode) ==> isErr(err, message.ErrInvalidProtocolVersion) || isErr(err, message.ErrIdentifierRejected)
 //@   modifies fields(msg)
 //@ func writeMessage
+//@   flag bodyhash 5637eb96d80c
 //@   trusted
 //@   results err
 //@   ensures[ghostdef-connack] gfield(conn, "nconnack") == old(gfield(conn, "nconnack"))+1 && gfield(conn, "ackcode") == int(ifaceval(msg, *message.ConnackMessage).returnCode) && gfield(conn, "acksp") == ite(ifaceval(msg, *message.ConnackMessage).sessionPresent, 1, 0)
 //@   modifies gfield(conn, "nconnack"), gfield(conn, "ackcode"), gfield(conn, "acksp"), ifaceval(msg, *message.header).remlen, ifaceval(msg, *message.header).dirty
 //@ func (*service).start
+//@   flag bodyhash fe9c20751c91
 //@   trusted
 //@   results err
 //@   ensures[ghostdef-start] gfield(0, "nstarted") == old(gfield(0, "nstarted"))+1
